@@ -362,3 +362,86 @@ def shrink(h, still_fails):
         else:
             i += 1
     return History(h.clsname, h.base_idx, ops)
+
+
+# ---------- the cosmology object of a framework is the base model with the overrides applied (independent expectation)
+_COSMO_ATTRS = ("H0", "Om0", "Ode0", "Ob0", "Tcmb0", "Neff", "Ok0", "w0", "wa")
+
+
+def cosmo_clone_mismatch(obj):
+    """None when obj.cosmo is what `cosmo_model.clone(**cosmo_params)` gives (class and every defining attribute), else a description"""
+    base = obj.cosmo_model
+    want = base.clone(**dict(obj.cosmo_params)) if obj.cosmo_params else base
+    got = obj.cosmo
+    if type(got) is not type(want):
+        return f"cosmo is a {type(got).__name__}, the model with the overrides applied is a {type(want).__name__}"
+    bad = []
+    for a in _COSMO_ATTRS:
+        if hasattr(want, a) or hasattr(got, a):
+            w, g = getattr(want, a, None), getattr(got, a, None)
+            w = getattr(w, "value", w); g = getattr(g, "value", g)
+            try:
+                same = (w is None and g is None) or abs(float(w) - float(g)) <= 1e-14 * max(1.0, abs(float(w)))
+            except Exception:
+                same = (w == g)
+            if not same:
+                bad.append(f"{a}: {g!r} instead of {w!r}")
+    return ("cosmo differs from cosmo_model.clone(**cosmo_params): " + ", ".join(bad)) if bad else None
+
+
+def cosmology_scenarios(clsname, quantity, extra=None):
+    """several objects in one process whose cosmologies differ but look alike to a careless key (same astropy `name`, same overrides;
+    unnamed models; an exactly flat model of a non-flat class with Ode0 overridden): each object's cosmology is its own, and `quantity`
+    equals that of an object given the *same* cosmology by another route (named base model + overrides).  Returns [(key, what, script)]."""
+    init()
+    import numpy as np, warnings
+    from astropy.cosmology import Planck15, FlatLambdaCDM, LambdaCDM
+    cls = class_by_name(clsname)
+    base = dict(copy.deepcopy(BASE[clsname]), **(extra or {}))
+    out = []
+    with warnings.catch_warnings():
+        warnings.simplefilter("ignore")
+        np.seterr(all="ignore")
+        seq = [("Planck15.clone(Om0=0.30)", Planck15.clone(Om0=0.30), {"H0": 70.0}, {"Om0": 0.30, "H0": 70.0}),
+               ("Planck15.clone(Om0=0.22)", Planck15.clone(Om0=0.22), {"H0": 70.0}, {"Om0": 0.22, "H0": 70.0}),
+               ("Planck15.clone(Om0=0.22)", Planck15.clone(Om0=0.22), {}, {"Om0": 0.22}),
+               ("Planck15.clone(Om0=0.36)", Planck15.clone(Om0=0.36), {}, {"Om0": 0.36}),
+               ("FlatLambdaCDM(H0=70, Om0=0.3, Tcmb0=2.7, Ob0=0.05)", FlatLambdaCDM(H0=70.0, Om0=0.3, Tcmb0=2.7, Ob0=0.05), {}, None),
+               ("FlatLambdaCDM(H0=64, Om0=0.24, Tcmb0=2.7, Ob0=0.045)", FlatLambdaCDM(H0=64.0, Om0=0.24, Tcmb0=2.7, Ob0=0.045), {}, None),
+               ("LambdaCDM(H0=70, Om0=0.3, Ode0=0.7, Tcmb0=0, Ob0=0.05, name='flatL')", LambdaCDM(H0=70.0, Om0=0.3, Ode0=0.7, Tcmb0=0.0, Ob0=0.05, name="flatL"), {"Ode0": 0.55}, None)]
+        script = []
+        for label, model, cp, route in seq:
+            script.append(f"o = {clsname}(cosmo_model={label}, cosmo_params={cp}, ...); o.{quantity}")
+            try:
+                o = cls(**dict(copy.deepcopy(base), cosmo_model=model, cosmo_params=dict(cp)))
+                val = read(o, quantity)
+            except Exception as e:
+                continue
+            mm = cosmo_clone_mismatch(o)
+            if mm:
+                out.append(("cosmology/not-the-requested-one", f"{clsname}(cosmo_model={label}, cosmo_params={cp}): {mm}", list(script)))
+                break
+            if route is not None:
+                ref = read(cls(**dict(copy.deepcopy(base), cosmo_model=Planck15, cosmo_params=dict(route))), quantity)
+                if ref != val:
+                    out.append(("cosmology/depends-on-earlier-objects", f"{clsname}(cosmo_model={label}, cosmo_params={cp}).{quantity} differs from the same cosmology given as Planck15 + {route}", list(script)))
+                    break
+        # the same on ONE object taken through these cosmologies by update()
+        try:
+            o = cls(**copy.deepcopy(base))
+            read(o, quantity)
+            script2 = [f"o = {clsname}(...); o.{quantity}"]
+            for label, model, cp, route in seq:
+                o.update(cosmo_model=model)
+                o.update(cosmo_params={})
+                if cp:
+                    o.update(cosmo_params=dict(cp))
+                script2.append(f"o.update(cosmo_model={label}); o.update(cosmo_params={{}}); o.update(cosmo_params={cp}); o.{quantity}")
+                val = read(o, quantity)
+                mm = cosmo_clone_mismatch(o)
+                if mm:
+                    out.append(("cosmology/not-the-requested-one/after-update", f"{clsname} after update(cosmo_model={label}, cosmo_params={cp}): {mm}", list(script2)))
+                    break
+        except Exception:
+            pass
+    return out
